@@ -18,9 +18,11 @@ Context {T : Type} {NT : Num T}.
 Local Open Scope num_scope.
 Variable m : mdp T.
 
-(* values as the look-ahead sees them: an absorbing successor contributes its reward only
-   (laostar.py:347-350; inside the sub-MDP absorbing rows jump to the 0-valued terminal) *)
-Definition Vm (V : nat -> T) (s : nat) : T := if masked m s then n0 else V s.
+(* values as the look-ahead sees them: a successor with is_absorbing = True contributes its reward
+   only (laostar.py:347-350; inside the sub-MDP absorbing rows jump to the 0-valued terminal).
+   LAO* only knows the declared flag; a state that is absorbing implicitly (certain zero-reward
+   self-loop) is an ordinary node whose revised value is 0 anyway: Qval is 0 at every masked state *)
+Definition Vm (V : nat -> T) (s : nat) : T := if absflag m s then n0 else V s.
 
 (* ------------------------------------------------------------------ *)
 (* 1. final result                                                      *)
